@@ -22,6 +22,7 @@ Print Assumptions C16_ambient_state_is_irrelevant.
 (* one call: objects it does not name are untouched; result and named objects depend only on the named objects *)
 Theorem C16_frame : forall acore x c h, ~ In h (handles c) -> snd (fst (step acore x c)) h = snd x h.
 Proof. exact step_frame. Qed.
+Print Assumptions C16_frame.
 
 Theorem C16_locality : forall acore, reads_prepared_only acore -> forall x y c,
   (forall h, In h (handles c) -> snd x h = snd y h) ->
